@@ -13,6 +13,7 @@ pub mod c13;
 pub mod c14;
 pub mod c15;
 pub mod c16;
+pub mod c17;
 
 use crate::engine::Ctx;
 
@@ -41,6 +42,7 @@ pub fn dispatch(ctx: &Ctx, replay: Option<&str>) -> i32 {
         "C14" => p!(c14),
         "C15" => p!(c15),
         "C16" => p!(c16),
+        "C17" => p!(c17),
         other => {
             eprintln!("MACHINERY: unknown property {}", other);
             2
